@@ -27,7 +27,8 @@ V1Views(hdr, proto, val) ==
 
 V1Full(r, full) ==
     IF r.k = "err"
-    THEN [k |-> "err", e |-> r.e, w |-> r.w, inc |-> r.e \in V1!IncompleteKinds, cmp |-> r.e \notin V1!IncompleteKinds, dbg |-> r.e]
+    THEN [k |-> "err", e |-> r.e, w |-> r.w, inc |-> r.e \in V1!IncompleteKinds, cmp |-> r.e \notin V1!IncompleteKinds, dbg |-> r.e,
+          einc |-> r.e \in V1!IncompleteKinds, ecmp |-> r.e \notin V1!IncompleteKinds]
     ELSE LET val == [proto |-> r.proto, sa |-> r.sa, da |-> r.da, sp |-> r.sp, dp |-> r.dp]
              base == [k |-> "ok", inc |-> FALSE, cmp |-> TRUE, hdr |-> r.hdr, proto |-> r.proto, sa |-> r.sa, da |-> r.da,
                       sp |-> r.sp, dp |-> r.dp]
@@ -59,7 +60,8 @@ V2Views(raw, addr) ==
 
 V2Full(r, full) ==
     IF r.k = "err"
-    THEN [k |-> "err", e |-> r.e, a |-> r.a, b |-> r.b, inc |-> r.e \in V2!IncompleteKinds, cmp |-> r.e \notin V2!IncompleteKinds]
+    THEN [k |-> "err", e |-> r.e, a |-> r.a, b |-> r.b, inc |-> r.e \in V2!IncompleteKinds, cmp |-> r.e \notin V2!IncompleteKinds,
+          einc |-> r.e \in V2!IncompleteKinds, ecmp |-> r.e \notin V2!IncompleteKinds]
     ELSE LET addr == AddrRl(r.addr)
              base == [k |-> "ok", inc |-> FALSE, cmp |-> TRUE, ver |-> "Two", cmd |-> r.cmd, tr |-> r.tr, addr |-> addr, raw |-> RlOf(r.raw)]
              vw == V2Views(r.raw, addr)
